@@ -98,11 +98,18 @@ func Str(name string, maxLen int, alphabet string) string {
 
 func Choose(name string, n int) int { return Int(name, 0, n-1) }
 
+// AssumeFalse is the panic value that ends a native run whose model does not
+// satisfy an assumption (the replay then confirms nothing).
+type AssumeFalse struct{}
+
 func Assume(c bool) {
 	if !c {
 		fmt.Println("ZZ-ASSUME-FALSE")
+		panic(AssumeFalse{})
 	}
 }
+
+func IsAssumeFalse(r any) bool { _, ok := r.(AssumeFalse); return ok }
 
 func Assert(c bool, label string) {
 	if !c {
